@@ -485,6 +485,14 @@ func (sc *waitScenario) sep() { time.Sleep(waitSep + sc.jitter) }
 
 func waitJoin(ss []string) string { return strings.Join(ss, ",") }
 
+func waitInts(xs []int) string {
+	var s []string
+	for _, x := range xs {
+		s = append(s, fmt.Sprint(x))
+	}
+	return strings.Join(s, ".")
+}
+
 // ---------------------------------------------------------------------------- the three sides
 
 // waitSide abstracts what differs between Read, Write and Accept in a scenario.
@@ -605,7 +613,7 @@ func waitExpectAll(e *waitEnv, r *waitResult, sd *waitSide, calls []*waitCall, c
 			c.early = true
 		}
 	}
-	r.Outcome = waitClasses(calls)
+	r.Outcome = waitMarkUnclaimed(e, sd, waitClasses(calls))
 	for _, c := range calls {
 		if !c.returned() {
 			r.violate(keyMissing, "%s: a %s call is still blocked %v after %s (calls: %s)", e.name, c.kind, waitMargin, what, waitJoin(waitClasses(calls)))
@@ -625,6 +633,33 @@ func waitExpectAll(e *waitEnv, r *waitResult, sd *waitSide, calls []*waitCall, c
 			return
 		}
 	}
+}
+
+// readable reports whether the reading session has data a Read would return at once
+// (leftover of a message in bufptr, or a complete message in the core).
+func (e *waitEnv) readable() (any bool, leftover, peek int) {
+	e.cs.mu.Lock()
+	defer e.cs.mu.Unlock()
+	leftover, peek = len(e.cs.bufptr), e.cs.kcp.PeekSize()
+	return leftover > 0 || peek > 0, leftover, peek
+}
+
+// a Read that is still parked while data is readable is reported as "blocked-data"
+func waitMarkUnclaimed(e *waitEnv, sd *waitSide, classes []string) []string {
+	if sd.kind != "Read" || e.cs == nil {
+		return classes
+	}
+	if any, _, _ := e.readable(); !any {
+		return classes
+	}
+	out := append([]string{}, classes...)
+	for i := range out {
+		if out[i] == "blocked" {
+			out[i] = "blocked-data"
+		}
+	}
+	sort.Strings(out)
+	return out
 }
 
 // ---------------------------------------------------------------------------- scenarios
@@ -822,6 +857,71 @@ func waitScReadShort(e *waitEnv, r *waitResult, sc *waitScenario) {
 	waitExpectAll(e, r, sd, calls, "data", time.Time{}, time.Now().Add(waitMargin), "read-multi-waiter-lost-wakeup:short-buffer", "", "an 8-byte message arrived for two readers with 4-byte buffers")
 }
 
+// len(bufs) readers (reader i has a bufs[i]-byte buffer, parked in index order) and ONE
+// datagram carrying len(msgs) messages of the given lengths.  Monitor (order-independent):
+// once everything has settled, no reader may still be parked while the session has readable
+// data ("readable data is never left unclaimed while someone is waiting"); and the bytes
+// handed out are a prefix of the bytes sent.
+func waitScReadMulti(bufs, msgs []int, variant string) func(*waitEnv, *waitResult, *waitScenario) {
+	return func(e *waitEnv, r *waitResult, sc *waitScenario) {
+		sd := &waitReadSide
+		total := 0
+		for _, m := range msgs {
+			total += m
+		}
+		var calls []*waitCall
+		for i, b := range bufs {
+			calls = append(calls, e.goRead(e.cs, i, b))
+			time.Sleep(15 * time.Millisecond) // parking order = index order
+		}
+		sc.sep()
+		if !waitExpectBlocked(e, r, sd, calls, "before the data") {
+			return
+		}
+		e.cconn.gate()
+		for i, m := range msgs {
+			payload := make([]byte, m)
+			for j := range payload {
+				payload[j] = byte('a' + i)
+			}
+			if _, err := e.ss.Write(payload); err != nil {
+				r.setupErr = err
+				return
+			}
+		}
+		time.Sleep(30 * time.Millisecond)
+		k := e.cconn.release(true)
+		e.logf("released %d datagram(s) carrying %d message(s) of %v bytes to %d readers with buffers %v", k, len(msgs), msgs, len(bufs), bufs)
+		if k != 1 {
+			r.setupErr = fmt.Errorf("the %d messages did not travel in one datagram (%d)", len(msgs), k)
+			return
+		}
+		waitAll(calls, time.Now().Add(waitMargin))
+		r.check("readable data is never left unclaimed while a reader waits (one datagram, several messages / overflow)")
+		r.Outcome = waitMarkUnclaimed(e, sd, waitClasses(calls))
+		claimed := 0
+		for _, c := range calls {
+			if c.returned() {
+				if c.class != "data" {
+					r.violate("wrong-result:Read:data", "%s: Read#%d returned %s", e.name, c.idx, c.class)
+					return
+				}
+				claimed += c.n
+			}
+		}
+		any, leftover, peek := e.readable()
+		e.logf("settled: %d of %d bytes claimed, %d reader(s) parked, leftover=%d PeekSize=%d", claimed, total, waitBlocked(calls), leftover, peek)
+		if claimed > total {
+			r.violate("read-multi-waiter-overclaim", "%s: readers received %d bytes, only %d were sent", e.name, claimed, total)
+			return
+		}
+		if b := waitBlocked(calls); b > 0 && any {
+			r.violate("read-multi-waiter-lost-wakeup:"+variant, "%s: %d of %d readers are still parked %v after one datagram with %d message(s) %v arrived for buffers %v, although data is readable (leftover %d bytes, next message %d bytes; calls: %s)",
+				e.name, b, len(calls), waitMargin, len(msgs), msgs, bufs, leftover, max(peek, 0), waitJoin(r.Outcome))
+		}
+	}
+}
+
 // After Close: Write fails; Read first drains what was received, then fails; 2nd Close errors.
 func waitScAfterClose(e *waitEnv, r *waitResult, sc *waitScenario) {
 	for i := 0; i < 2; i++ {
@@ -887,7 +987,7 @@ func waitScAfterCloseListener(e *waitEnv, r *waitResult, sc *waitScenario) {
 
 // ---------------------------------------------------------------------------- catalogue and driver
 
-func waitCatalogue(thorough bool) []*waitScenario {
+func waitCatalogue(thorough bool, rng *vrng) []*waitScenario {
 	var out []*waitScenario
 	add := func(name, kind string, n int, pair bool, run func(*waitEnv, *waitResult, *waitScenario)) {
 		out = append(out, &waitScenario{name: fmt.Sprintf("%s/%s/n=%d", kind, name, n), kind: kind, callers: n, pair: pair, run: run})
@@ -929,6 +1029,36 @@ func waitCatalogue(thorough bool) []*waitScenario {
 		add("wake-separate-datagrams", "Read", 3, true, waitScReadSeparate(3))
 	}
 	add("wake-short-buffer", "Read", 2, true, waitScReadShort)
+	// one datagram, several messages and/or a message longer than a buffer, >= 3 readers: each of
+	// the three successful paths of Read (bufptr, direct, recvbuf) is in turn the LAST one that
+	// must pass the token on (readers are served in parking order)
+	multi := func(variant string, bufs, msgs []int) {
+		name := fmt.Sprintf("multi-%s-b%s-m%s", variant, waitInts(bufs), waitInts(msgs))
+		add(name, "Read", len(bufs), true, waitScReadMulti(bufs, msgs, variant))
+	}
+	multi("direct-path-last", []int{256, 256, 256}, []int{10, 10, 10})      // direct, direct*, direct
+	multi("bufptr-path-last", []int{64, 64, 64}, []int{100, 10})            // recvbuf, bufptr*, direct
+	multi("recvbuf-path-last", []int{256, 64, 64}, []int{10, 100})          // direct, recvbuf*, bufptr
+	multi("overflow-only", []int{32, 32, 256}, []int{100})                  // recvbuf, bufptr, bufptr*... no message follows
+	multi("bufptr-path-last", []int{64, 64, 64, 64}, []int{100, 100})       // recvbuf, bufptr*, recvbuf, bufptr
+	multi("mixed", []int{64, 256, 8, 256}, []int{100, 10, 10})              // recvbuf, bufptr*, recvbuf, bufptr*
+	multi("direct-path-last", []int{256, 256, 256, 256}, []int{10, 10, 10}) // one reader legitimately stays parked
+	multi("bufptr-path-last", []int{8, 8, 256}, []int{16, 10})              // recvbuf, bufptr*, direct
+	if thorough {
+		multi("recvbuf-path-last", []int{256, 256, 16, 64}, []int{10, 10, 40}) // direct, direct, recvbuf*, bufptr
+		multi("mixed", []int{16, 16, 16, 256}, []int{40, 200, 10})
+		for i := 0; i < 6; i++ { // random buffer / message mixes (the monitor does not depend on the service order)
+			n := 3 + rng.intn(2)
+			var bufs, msgs []int
+			for j := 0; j < n; j++ {
+				bufs = append(bufs, rng.pick(8, 32, 64, 256))
+			}
+			for j := 0; j < 2+rng.intn(2); j++ {
+				msgs = append(msgs, rng.pick(10, 40, 100, 200))
+			}
+			multi("random", bufs, msgs)
+		}
+	}
 	add("after-close", "Read", 1, true, waitScAfterClose)
 	add("after-close", "Accept", 1, false, waitScAfterCloseListener)
 	return out
@@ -964,7 +1094,7 @@ func TestVerifC13(t *testing.T) {
 	}
 	var scs []*waitScenario
 	for round := 0; round < rounds; round++ {
-		for _, sc := range waitCatalogue(vThorough()) {
+		for _, sc := range waitCatalogue(vThorough(), rng) {
 			sc.jitter = time.Duration(rng.intn(30)) * time.Millisecond // every random choice from the one stream
 			if rounds > 1 {
 				sc.name = fmt.Sprintf("%s/round=%d", sc.name, round)
